@@ -123,7 +123,7 @@ func (h *c20Host) instances() map[string]c20InstInfo {
 	out := map[string]c20InstInfo{}
 	for n, pc := range h.mc.parentControllers {
 		info := c20InstInfo{ptr: uintptr(unsafe.Pointer(pc)), obj: pc}
-		info.specID = c20SpecID(pc.cc.Spec.ResyncPeriodSeconds, pc.cc.Spec.Hooks != nil, func() *v1alpha1.Hook { return pc.cc.Spec.Hooks.Sync })
+		info.specID = c20SpecID(pc.cc.Spec.ParentResource.LabelSelector)
 		out[n] = info
 	}
 	return out
@@ -150,17 +150,16 @@ func (h *c20Host) apply(realName, short string, s *c20Spec, crd string, touch in
 	p := s.Parents[0]
 	cc.Spec.ParentResource.APIVersion = p.APIVersion
 	cc.Spec.ParentResource.Resource = p.Resource
-	cc.Spec.ParentResource.LabelSelector = c20Selector(short, p.BadSelector)
-	gs := true
-	cc.Spec.GenerateSelector = &gs
-	rs := c20Resync(s)
-	cc.Spec.ResyncPeriodSeconds = &rs
+	cc.Spec.ParentResource.LabelSelector = c20Selector(short, s.ID, p.BadSelector)
+	cc.Spec.ParentResource.IgnoreStatusChanges = c20BoolPtr(s.IgnoreStatus)
+	cc.Spec.GenerateSelector = c20BoolPtr(s.GenSelector)
+	cc.Spec.ResyncPeriodSeconds = c20Resync(s)
 	for _, k := range s.Children {
 		rule := v1alpha1.CompositeControllerChildResourceRule{}
 		rule.APIVersion = k.APIVersion
 		rule.Resource = k.Resource
 		if k.Strategy != "" {
-			rule.UpdateStrategy = &v1alpha1.CompositeControllerChildUpdateStrategy{Method: v1alpha1.ChildUpdateMethod(k.Strategy)}
+			rule.UpdateStrategy = &v1alpha1.CompositeControllerChildUpdateStrategy{Method: c20Method(k.Strategy)}
 		}
 		cc.Spec.ChildResources = append(cc.Spec.ChildResources, rule)
 	}
@@ -245,30 +244,54 @@ var c20BadCrds = []string{"missing", "nostatus"}
 
 // ================================ generic ======================================
 
-const c20ResyncBase = 1000
-
-// spec.resyncPeriodSeconds normally carries the spec id (so that specs with different
-// ids differ); a spec with FastResync asks for the shortest period instead (its
-// handlers then run their own resync ticker) and is told apart by its sync hook URL.
-func c20Resync(s *c20Spec) int32 {
-	if s.FastResync {
-		return 1
+// Every spec carries its id in the parent label selector, as a requirement every
+// parent meets ("label c20id-<id> does not exist"): specs with different ids differ,
+// and the id of a running instance can be read from the spec it remembers.
+func c20SpecID(sel *metav1.LabelSelector) int {
+	if sel == nil {
+		return 0
 	}
-	return int32(c20ResyncBase + s.ID)
-}
-
-func c20SpecID(resync *int32, hasHooks bool, syncHook func() *v1alpha1.Hook) int {
-	if resync != nil && *resync >= c20ResyncBase {
-		return int(*resync) - c20ResyncBase
-	}
-	if hasHooks {
-		if h := syncHook(); h != nil && h.Webhook != nil && h.Webhook.URL != nil {
-			if _, id, _, _, ok := c20ParseURL(*h.Webhook.URL); ok {
-				return id
-			}
+	for _, e := range sel.MatchExpressions {
+		if strings.HasPrefix(e.Key, "c20id-") {
+			id, _ := strconv.Atoi(strings.TrimPrefix(e.Key, "c20id-"))
+			return id
 		}
 	}
 	return 0
+}
+
+// spec.resyncPeriodSeconds: absent, or any value the CRD schema lets through
+func c20Resync(s *c20Spec) *int32 {
+	if s.Resync == nil {
+		return nil
+	}
+	v := *s.Resync
+	return &v
+}
+
+// fastResync: the parent handlers of an instance started with s run a resync ticker of
+// their own of (clamped) one second
+func (s *c20Spec) fastResync() bool { return s.Resync != nil && *s.Resync <= 1 }
+
+// "" -> nil pointer, "true"/"false" -> pointer to the value
+func c20BoolPtr(v string) *bool {
+	switch v {
+	case "true":
+		b := true
+		return &b
+	case "false":
+		b := false
+		return &b
+	}
+	return nil
+}
+
+// an update strategy block may be present with an empty method
+func c20Method(strategy string) v1alpha1.ChildUpdateMethod {
+	if strategy == "empty" {
+		return ""
+	}
+	return v1alpha1.ChildUpdateMethod(strategy)
 }
 
 // metadata.generation as the API server keeps it (events of older replay files carry none)
@@ -328,9 +351,13 @@ type c20Spec struct {
 	Finalize  *c20HookCfg `json:"finalize,omitempty"`
 	Customize *c20HookCfg `json:"customize,omitempty"`
 	Kind      string      `json:"kind"` // generator's label: valid | <invalid kind>
-	// FastResync: spec.resyncPeriodSeconds = 1, below the shared informers' relist period
-	// (needs a sync hook given by url: the url then carries the spec id)
-	FastResync bool `json:"fastResync,omitempty"`
+	// Resync: spec.resyncPeriodSeconds (nil: absent); values below 1 are clamped to one
+	// second by Start, and anything below the shared informers' relist period (1 h)
+	// gives the parent handlers a resync ticker of their own
+	Resync *int32 `json:"resync,omitempty"`
+	// GenSelector (composite), IgnoreStatus: "" = pointer absent | "true" | "false"
+	GenSelector  string `json:"generateSelector,omitempty"`
+	IgnoreStatus string `json:"ignoreStatusChanges,omitempty"`
 }
 
 type c20Event struct {
@@ -360,11 +387,12 @@ type c20Case struct {
 	Features []string   `json:"features"`
 }
 
-func c20Selector(short string, bad bool) *metav1.LabelSelector {
+func c20Selector(short string, id int, bad bool) *metav1.LabelSelector {
+	idReq := metav1.LabelSelectorRequirement{Key: fmt.Sprintf("c20id-%d", id), Operator: metav1.LabelSelectorOpDoesNotExist}
 	if bad {
-		return &metav1.LabelSelector{MatchExpressions: []metav1.LabelSelectorRequirement{{Key: "ctl", Operator: "Bogus"}}}
+		return &metav1.LabelSelector{MatchExpressions: []metav1.LabelSelectorRequirement{idReq, {Key: "ctl", Operator: "Bogus"}}}
 	}
-	return &metav1.LabelSelector{MatchLabels: map[string]string{"ctl": short}}
+	return &metav1.LabelSelector{MatchLabels: map[string]string{"ctl": short}, MatchExpressions: []metav1.LabelSelectorRequirement{idReq}}
 }
 
 // c20Hook renders a hook configuration; every usable URL names the instance
@@ -714,7 +742,8 @@ func (r *c20Run) seedCluster() {
 				if pk.ns != "" {
 					md["namespace"] = pk.ns
 				}
-				r.w.srv.Seed(map[string]interface{}{"apiVersion": pk.apiVersion, "kind": pk.kind, "metadata": md, "spec": map[string]interface{}{}})
+				r.w.srv.Seed(map[string]interface{}{"apiVersion": pk.apiVersion, "kind": pk.kind, "metadata": md,
+					"spec": map[string]interface{}{"selector": map[string]interface{}{"matchLabels": map[string]interface{}{"c20": "none"}}}})
 			}
 		}
 	}
@@ -1044,7 +1073,7 @@ func c20RunCase(slot int, c *c20Case) (recs []c20StepRec) {
 	// instance (its handlers would put the parents on its queue).
 	wait := false
 	for _, st := range run.stopped {
-		if sp := c20SpecOf(c, st.short, st.id); sp != nil && sp.FastResync {
+		if sp := c20SpecOf(c, st.short, st.id); sp != nil && sp.fastResync() {
 			wait = true
 		}
 	}
@@ -1283,6 +1312,27 @@ func (g *c20Gen) validHook(kind string) *c20HookCfg {
 	return h
 }
 
+// resync: absent, large, or (1 in 6) one of the values that make the handlers tick every second
+func (g *c20Gen) resync() *int32 {
+	v := int32(0)
+	switch g.rng.Intn(12) {
+	case 0:
+		v = 0
+	case 1:
+		v = int32(-1 - g.rng.Intn(5))
+	case 2, 3, 4, 5:
+		v = int32(3600 * (2 + g.rng.Intn(24)))
+	case 6:
+		v = 1800 // below the relist period: a ticker that never fires within a history
+	default:
+		return nil
+	}
+	if v == 0 && g.rng.Bool() {
+		v = 1
+	}
+	return &v
+}
+
 func (g *c20Gen) children() []c20Rule {
 	pool := []c20Rule{c20Pods, c20Widgets, c20Things, c20Namespaces}
 	var out []c20Rule
@@ -1294,7 +1344,7 @@ func (g *c20Gen) children() []c20Rule {
 	}
 	for i := 0; i < n; i++ {
 		r := pool[perm[i]]
-		r.Strategy = g.rng.Pick([]string{"", "", "OnDelete", "InPlace", "Recreate"})
+		r.Strategy = g.rng.Pick([]string{"", "", "", "OnDelete", "InPlace", "Recreate", "empty"})
 		out = append(out, r)
 	}
 	return out
@@ -1329,13 +1379,13 @@ func (g *c20Gen) valid(flavor string) *c20Spec {
 		s.Customize = g.validHook("customize")
 		s.Customize.Related = g.rng.Pick([]string{"pods", "namespaces"})
 	}
-	if s.Sync.URL && g.rng.Chance(1, 16) {
-		s.FastResync = true
-	}
+	// the fields a constructor might be tempted to default in place
+	s.Resync = g.resync()
+	s.GenSelector = g.rng.Pick([]string{"true", "true", "false", ""})
+	s.IgnoreStatus = g.rng.Pick([]string{"", "", "false", "true"})
 	if g.rng.Chance(1, 24) {
 		// the constructor also accepts a hooks block whose sync hook is missing or empty
 		s.Kind = "nosync"
-		s.FastResync = false
 		s.Customize = nil
 		if g.rng.Bool() {
 			s.Sync = nil
@@ -1428,6 +1478,7 @@ func (g *c20Gen) invalid(flavor, kind string) *c20Spec {
 func (g *c20Gen) concretise(flavor, family string, letters []string, names []string) *c20Case {
 	c := &c20Case{Flavor: flavor, Family: family}
 	cur := map[string]*c20Spec{}
+	lastTouch := map[string]int{}
 	for i, l := range letters {
 		n := names[i]
 		g.touch++
@@ -1457,6 +1508,10 @@ func (g *c20Gen) concretise(flavor, family string, letters []string, names []str
 			ev.Op, ev.Spec, ev.Replace = "apply", g.valid(flavor), true
 		case "N", "K":
 			ev.Op, ev.Spec = "apply", cur[n]
+			if g.rng.Bool() {
+				// not even the metadata changed: the same object delivered again (informer resync)
+				ev.Touch = lastTouch[n]
+			}
 		case "D":
 			ev.Op = "delete"
 		case "E":
@@ -1472,6 +1527,7 @@ func (g *c20Gen) concretise(flavor, family string, letters []string, names []str
 		}
 		if ev.Spec != nil {
 			cur[n] = ev.Spec
+			lastTouch[n] = ev.Touch
 		}
 		if ev.Op == "delete" {
 			delete(cur, n)
@@ -1498,9 +1554,6 @@ func c20Stamp(c *c20Case) {
 		case "delete":
 			delete(cur, ev.Name)
 		case "apply":
-			if sp := ev.Spec; sp.FastResync && (sp.NoHooks || sp.Sync == nil || !sp.Sync.URL) {
-				sp.FastResync = false // needs the sync hook url to carry the spec id
-			}
 			o := cur[ev.Name]
 			switch {
 			case o == nil || ev.Replace:
@@ -1698,11 +1751,33 @@ func c20Corpus(flavor string, rng *vh.Rng) []*c20Case {
 	add("corpus-replace", []string{"V", "V", "R", "V", "R"}, a(5), nil)
 	add("corpus-replace", []string{"V", "V", "R", "R", "D", "R"}, []string{"a", "b", "a", "b", "a", "b"}, nil)
 	add("corpus-replace", []string{"I", "R", "V", "R"}, a(4), nil)
+	// every value of the fields a constructor might default in place, each followed by
+	// a metadata-only update and by the same object delivered again
+	i32 := func(v int32) *int32 { return &v }
+	for vi, rs := range []*int32{nil, i32(0), i32(-2), i32(1), i32(7200)} {
+		resync, k := rs, vi
+		add("corpus-normalisable", []string{"V", "N", "N", "V", "N", "D"}, a(6), func(c *c20Case, g *c20Gen) {
+			c.Events[2].Touch = c.Events[1].Touch
+			for _, i := range []int{0, 3} {
+				s := c.Events[i].Spec
+				s.Kind, s.NoHooks, s.Customize = "valid", false, nil
+				s.Resync = resync
+				s.GenSelector = []string{"", "false", "true"}[(k+i)%3]
+				s.IgnoreStatus = []string{"", "true", "false"}[(k+i)%3]
+				s.Children = []c20Rule{{APIVersion: "v1", Resource: "pods", Strategy: []string{"", "empty", "OnDelete", "InPlace", "Recreate"}[k]}}
+				s.Sync = &c20HookCfg{URL: true, Timeout: []string{"", "zero", "neg", "pos", ""}[k], Etag: []string{"", "nil-enabled", "on", "off", "on"}[k]}
+				s.Finalize = []*c20HookCfg{nil, {NoWebhook: true}, {URL: true, Timeout: "neg"}}[(k+i)%3]
+			}
+			c.Events[1].Spec, c.Events[2].Spec, c.Events[4].Spec = c.Events[0].Spec, c.Events[0].Spec, c.Events[3].Spec
+		})
+	}
 	// controllers whose parent handlers run a resync ticker of their own (1 s), stopped and restarted
 	fast := func(c *c20Case, g *c20Gen) {
 		for i := range c.Events {
 			if s := c.Events[i].Spec; s != nil && c.Events[i].Abs != "N" {
-				s.Kind, s.NoHooks, s.FastResync = "valid", false, true
+				s.Kind, s.NoHooks = "valid", false
+				v := []int32{1, 0, -3}[i%3]
+				s.Resync = &v
 				s.Children = []c20Rule{c20Pods}
 				s.Sync = &c20HookCfg{URL: true}
 				s.Finalize, s.Customize = nil, nil
@@ -1909,8 +1984,18 @@ func c20Main(t *testing.T) {
 			if r.Event.Replace {
 				w.Count("event-replace")
 			}
-			if r.Event.Spec != nil && r.Event.Spec.FastResync {
-				w.Count("spec-fast-resync")
+			if sp := r.Event.Spec; sp != nil {
+				switch {
+				case sp.Resync == nil:
+					w.Count("resync-absent")
+				case *sp.Resync < 1:
+					w.Count("resync-below-one")
+				case *sp.Resync == 1:
+					w.Count("resync-one")
+				default:
+					w.Count("resync-large")
+				}
+				w.Count("generateSelector-" + sp.GenSelector)
 			}
 			if r.Event.Blocked {
 				w.Count("event-with-sync-in-flight-requested")
